@@ -44,10 +44,21 @@ Theorem c37_lookup_rpc_client : forall str, injective str -> forall a b,
 Proof. intros str Hinj. first [exact (lookupRpcClient_sound str Hinj)|exact (lookupRpcClient_sound str)]. Qed.
 Print Assumptions c37_lookup_rpc_client.
 
+(* HTTP lookup: full for the URL taken as its String() form (what the code compares) ... *)
 Theorem c37_lookup_http_handler : forall str, injective str -> forall a b,
   lookupHTTPHandler_is_equivalent str a b = true -> lookupHTTPHandler_params a = lookupHTTPHandler_params b.
 Proof. intros str Hinj. first [exact (lookupHTTPHandler_sound str Hinj)|exact (lookupHTTPHandler_sound str)]. Qed.
 Print Assumptions c37_lookup_http_handler.
+
+(* ... but REFUTED for the parameter the resolvers read (URL.Path): url.URL{Host:"x"} and
+   url.URL{Path:"//x"} render the same text.  KNOWN FINDING
+   equiv-merges-lookupHTTPHandler-handlerURL-path; the witness records are tied to the real
+   url.URL values by the correspondence case HttpWitness. *)
+Theorem c37_lookup_http_handler_refuted :
+  exists a b, lookupHTTPHandler_is_equivalent (fun x => x) a b = true /\
+              lookupHTTPHandler_resolution_params a <> lookupHTTPHandler_resolution_params b.
+Proof. exact lookupHTTPHandler_refuted. Qed.
+Print Assumptions c37_lookup_http_handler_refuted.
 
 Theorem c37_signal_peer : forall str, injective str -> forall a b,
   signalPeer_is_equivalent str a b = true -> signalPeer_params a = signalPeer_params b.
